@@ -21,6 +21,18 @@ case "$1" in
   "$VERIF_BUILD/instrument" 'simPoint(20, nil); ' $BLOOM_FILES > "$VERIF_BUILD/instrument.log" 2>&1 \
     && "$VERIF_BUILD/instrument" 'simPoint(20); ' $GCS_FILES >> "$VERIF_BUILD/instrument.log" 2>&1 \
     || { cat "$VERIF_BUILD/instrument.log" >&2; echo "BUILD-ERROR: instrumentation failed" >&2; exit 2; }
+  # every OTHER package of the repository (root package, merkleblock, sub-packages
+  # a change may add under bloom/ or gcs/, ...) gets its statements instrumented
+  # too, through a hub package that exists only in the scratch copy
+  mkdir -p "$INST/zzsimhub" && printf 'package zzsimhub\n\n// Hook is set by the verification harness (scratch copy only).\nvar Hook func(site int)\n' > "$INST/zzsimhub/hub.go"
+  ( cd "$INST" && go list -f '{{.Dir}} {{.Name}}' ./... 2>> "$VERIF_BUILD/instrument.log" ) > "$VERIF_BUILD/pkgs.txt" || { cat "$VERIF_BUILD/instrument.log" >&2; echo "BUILD-ERROR: cannot list the repository's packages" >&2; exit 2; }
+  while read -r dir pkg; do
+    case "$dir" in "$INST/bloom"|"$INST/gcs"|"$INST/zzsimhub"|"$INST"/jsonpb*) continue ;; esac
+    files=$(ls "$dir"/*.go 2>/dev/null | grep -v '_test.go$' | grep -v 'zz_simhook_auto.go$')
+    [ -n "$files" ] || continue
+    printf 'package %s\n\nimport zzsimhub "github.com/gcash/bchutil/zzsimhub"\n\nfunc simPointAuto(site int) {\n\tif h := zzsimhub.Hook; h != nil {\n\t\th(site)\n\t}\n}\n' "$pkg" > "$dir/zz_simhook_auto.go"
+    "$VERIF_BUILD/instrument" 'simPointAuto(21); ' $files >> "$VERIF_BUILD/instrument.log" 2>&1 || { cat "$VERIF_BUILD/instrument.log" >&2; echo "BUILD-ERROR: instrumentation failed in $dir" >&2; exit 2; }
+  done < "$VERIF_BUILD/pkgs.txt"
   sed "s#=> /repo#=> $INST#" go.mod > "$VERIF_BUILD/go.race.mod" && cp go.sum "$VERIF_BUILD/go.race.sum"
   go build -race -tags verif -modfile="$VERIF_BUILD/go.race.mod" -o "$VERIF_BUILD/runner-race" ./cmd/runner 2> "$VERIF_BUILD/build-race.log" || { cat "$VERIF_BUILD/build-race.log" >&2; echo "BUILD-ERROR: race runner does not build against /repo" >&2; exit 2; } ;;
 esac
